@@ -128,6 +128,49 @@ func c18(c *Ctx) {
 			}
 		}
 	}
+	// needles, search strings and replacements that read as numbers ("12", "-3.5", ".5", "1e1", "007"), on
+	// subjects that are not numerals: written as string literals and read from the data through a path
+	{
+		subs := []string{"a12b", "12a", "a12", "x-3.5y", "a.5", "1e1z", "z1e1", "007a", "a0", "b", "a 12", "12 12x"}
+		nums := []string{"12", "-3.5", ".5", "1e1", "007", "0", "2", "1", "3.50"}
+		for _, sj := range subs {
+			for _, nd := range nums {
+				for _, rp := range []string{"Z", "7", "0.5"} {
+					doc := h.Obj("s", h.Str(sj), "n", h.Str(nd), "r", h.Str(rp), "rows", h.SliceAny(h.Obj("s", h.Str(sj), "n", h.Str(nd))))
+					sdoc := toStruct(h.Obj("S", h.Str(sj), "N", h.Str(nd), "R", h.Str(rp)))
+					for _, arg := range []string{qlit(nd), "$.n"} {
+						if rp == "Z" {
+							for _, f := range bfs {
+								ec := c.AddEval("$.s."+f.name+"("+arg+")", doc, "numeral-needles", true, true)
+								ec.Check = boolCheck(f.f(sj, nd))
+								if arg == "$.n" {
+									ec = c.AddEval("$.s."+f.name+"("+arg+")", sdoc, "numeral-needles:struct", true, true)
+									ec.Check = boolCheck(f.f(sj, nd))
+									ec = c.AddEval("$.rows[@.s."+f.name+"(@.n)].Count()", doc, "numeral-needles:filter", true, true)
+								}
+							}
+							re := regexp.MustCompile(nd)
+							m := "0"
+							if re.MatchString(sj) {
+								m = "1"
+							}
+							ec := c.AddEval("$.s.DoesMatchRegex("+arg+")", doc, "numeral-needles:regex", true, true)
+							ec.Eng = fmt.Sprintf("((re %s %s %s))", hexs(nd), hexs(sj), m)
+							ec.Check = boolCheck(re.MatchString(sj))
+						}
+						for _, rarg := range []string{qlit(rp), "$.r"} {
+							ec := c.AddEval("$.s.ReplaceAll("+arg+","+rarg+")", doc, "numeral-needles:replace", true, true)
+							ec.Check = strCheck(strings.ReplaceAll(sj, nd, rp))
+							re := regexp.MustCompile(nd)
+							ec = c.AddEval("$.s.ReplaceRegex("+arg+","+rarg+")", doc, "numeral-needles:regex", true, true)
+							ec.Eng = fmt.Sprintf("((rr %s %s %s %s))", hexs(nd), hexs(sj), hexs(rp), hexs(re.ReplaceAllString(sj, rp)))
+							ec.Check = strCheck(re.ReplaceAllString(sj, rp))
+						}
+					}
+				}
+			}
+		}
+	}
 	c.RunEvalCases()
 
 	// random strings (ASCII and non-ASCII) for the substring family and the slicers (ASCII)
